@@ -1063,6 +1063,7 @@ func TestVerifC18(t *testing.T) {
 	}
 
 	vC18Corpus(o)
+	vC18SizeBoundary(o, &vRand{s: o.seed*104729 + 17})
 
 	// ---------- modelled fragment: attributes
 	nAttr := 10000
